@@ -59,6 +59,9 @@ AllocViol(e) ==
          /\ Len(e.alloc) = Cardinality(Entries(e))
       THEN
         (IF \A en \in Entries(e) : ExactGrant(en, TheRa(e, en.r), Pool(e.pre, en.r)) THEN {} ELSE {"C04_ExactAmount"}) \cup
+        \* "the resource values it is told about are the ones it holds": the label of every held index is the value the worker's
+        \* resource description gives that index
+        (IF \A ra \in SetOf(e.alloc) : \A x \in SetOf(ra.idx) : x.label = x.expect THEN {} ELSE {"C04_ToldIsHeld"}) \cup
         (IF \A en \in Entries(e) : Pool(e.pre, en.r).kind = "sum" \/ ValidIndices(TheRa(e, en.r), Pool(e.pre, en.r))
          THEN {} ELSE {"C16_IndicesFreeAndSingleFraction"}) \cup
         (IF e.coupled \/ \A en \in Entries(e) : PolicyGrant(en, TheRa(e, en.r), Pool(e.pre, en.r), e.ps0[en.r + 1])
